@@ -28,15 +28,22 @@ def graph_key(gr):
     return json.dumps(gr["g"], sort_keys=True) + json.dumps(gr["shape"])
 
 
-def def_lines(d, ind):
+def def_lines(d, ind, style="normal"):
+    """style: normal | endless (def m = value) | multiline (signature over two lines, defaulted parameters)"""
     body = LIT[d["ret"]]
+    name = d["name"]
     if d["static"] and d["how"] == "sclass":
-        return [ind + "class << self", ind + "  def %s" % d["name"], ind + "    " + body, ind + "  end", ind + "end"]
-    head = "def self.%s" % d["name"] if d["static"] else "def %s" % d["name"]
+        inner = def_lines(dict(d, static=False), ind + "  ", style)
+        return [ind + "class << self"] + inner + [ind + "end"]
+    head = "def self.%s" % name if d["static"] else "def %s" % name
+    if style == "endless":
+        return [ind + head + " = " + body]
+    if style == "multiline":
+        return [ind + head + "(a = 1,", ind + " " * (len(head) + 1) + "b = 2)", ind + "  " + body, ind + "end"]
     return [ind + head, ind + "  " + body, ind + "end"]
 
 
-def render(gr, names=PLAIN, wrap=None, qualify=None):
+def render(gr, names=PLAIN, wrap=None, qualify=None, style="normal"):
     """-> (lines, info) where info = {"def_rows": {(owner, name, static): row}, "class_rows": ...}
     wrap: list of module names the whole group is wrapped in."""
     g = gr["g"]
@@ -52,7 +59,7 @@ def render(gr, names=PLAIN, wrap=None, qualify=None):
         lines.append(ind0 + "module %s" % nm(m))
         for d in [d for d in g["defs"] if d["owner"] == m]:
             def_rows[(m, d["name"], d["static"])] = len(lines) + 1
-            lines += def_lines(d, ind0 + "  ")
+            lines += def_lines(d, ind0 + "  ", style)
         lines.append(ind0 + "end")
     for c in gr["shape"]:
         sup = g["sup"][c]
@@ -71,12 +78,12 @@ def render(gr, names=PLAIN, wrap=None, qualify=None):
             if d["vis"] != "public":
                 lines.append(ind + d["vis"])
             def_rows[(c, d["name"], d["static"])] = len(lines) + (2 if d["static"] and d["how"] == "sclass" else 1)
-            lines += def_lines(d, ind)
+            lines += def_lines(d, ind, style)
         lines.append(ind0 + "end")
     for d in [d for d in g["defs"] if d["reopened"]]:
         lines.append(ind0 + "class %s" % nm(d["owner"]))
         def_rows[(d["owner"], d["name"], d["static"])] = len(lines) + 1
-        lines += def_lines(d, ind0 + "  ")
+        lines += def_lines(d, ind0 + "  ", style)
         lines.append(ind0 + "end")
     for w in reversed(wrap or []):
         ind0 = ind0[:-2]
